@@ -346,6 +346,14 @@ def pickle_part(run, quick):
                 obj.write(E.ptr(E.reg("ptr", 32), disp=4), e, endian=rng.choice([1, -1]))
                 if rng.random() < 0.5 and e.size % 8 == 0 and e.size >= 16:
                     obj.write(E.ptr(E.reg("ptr", 32), disp=4 + max(1, e.size // 16)), E.cst(0x5A, 8))
+                if e.size % 8 == 0:
+                    # a further history of constant / symbolic stores that extend, trim and split what is there
+                    for _w in range(rng.randrange(0, 5)):
+                        off = rng.randrange(0, 14)
+                        tgt = (0x1000 + off) if rng.random() < 0.5 else E.ptr(E.reg("ptr", 32), disp=off)
+                        c = rng.random()
+                        val = rng.randbytes(rng.randrange(1, 7)) if c < 0.6 else (E.reg("y%d" % _w, rng.choice([8, 16, 32])) if c < 0.85 else e)
+                        obj.write(tgt, val)
             blob = pickle.dumps(obj)
             back = pickle.loads(blob)
         except Exception as x:
@@ -386,16 +394,47 @@ def pickle_part(run, quick):
             P = E.reg("ptr", 32)
             addrs = [(0x1000, 4), (0x1002, 4), (0x1004, 4), (0x1004, nb), (0x1005, max(1, nb - 1)), (0x1004 + nb - 1, 2)]
             addrs += [(E.ptr(P, disp=4 + o), l) for o in range(0, nb + 1) for l in (1, 2, nb) if l <= nb + 2]
+            addrs += [(0x1000 + o, l) for o in range(0, 20, 1) for l in (1, 2, 4)] + [(E.ptr(P, disp=o), l) for o in range(0, 20) for l in (1, 2, 4)]
             for a, l in addrs:
                 def rd(mm):
                     try:
-                        return [x if isinstance(x, bytes) else X.dump(x) for x in mm.read(a, l)]
+                        out = []
+                        for x in mm.read(a, l):
+                            x = bytes(x) if isinstance(x, (bytes, bytearray)) else X.dump(x)
+                            if isinstance(x, bytes) and out and isinstance(out[-1], bytes):
+                                out[-1] += x          # how raw bytes are cut into objects is not part of what is read
+                            else:
+                                out.append(x)
+                        return out
                     except Exception as x:
                         return ("raised", type(x).__name__)
-                if bad is None and rd(obj) != rd(back):
+                def same(r1, r2):
+                    """equal reads; a constant kept as an expression in one map and as raw bytes in the other is the same content
+                    (the byte order of the expression is the one it was stored with: either reading must match)"""
+                    if r1 == r2:
+                        return True
+                    if not isinstance(r1, list) or not isinstance(r2, list):
+                        return False
+                    for en in ("little", "big"):
+                        def norm(r):
+                            out = []
+                            for x in r:
+                                if isinstance(x, tuple) and x and x[0] == "cst" and x[2] % 8 == 0:
+                                    x = (x[1] & ((1 << x[2]) - 1)).to_bytes(x[2] // 8, en)
+                                if isinstance(x, bytes) and out and isinstance(out[-1], bytes):
+                                    out[-1] += x
+                                else:
+                                    out.append(x)
+                            return out
+                        if norm(r1) == norm(r2):
+                            return True
+                    return False
+                if bad is None and not same(rd(obj), rd(back)):
                     bad = ("memory-read", "restored memory reads differently at %s (%d bytes)" % (a, l))
-                if bad is None and cp is not None and rd(obj) != rd(cp):
-                    bad = ("memory-copy-read", "a copy of the memory map reads differently at %s (%d bytes): %s vs %s" % (a, l, str(rd(cp))[:90], str(rd(obj))[:90]))
+                if bad is None and cp is not None and not same(rd(obj), rd(cp)):
+                    sa, sb = str(rd(cp)), str(rd(obj))
+                    k = next((i for i in range(min(len(sa), len(sb))) if sa[i] != sb[i]), 0)
+                    bad = ("memory-copy-read", "a copy of the memory map reads differently at %s (%d bytes): ...%s vs ...%s" % (a, l, sa[max(0, k - 60):k + 60], sb[max(0, k - 60):k + 60]))
         if bad:
             run.violation("pickle|%s|%s" % (kind, bad[0]), bad[1], rep)
 
